@@ -1222,6 +1222,9 @@ func (s *LoadingStore[K, V]) Get(ctx context.Context, key K) (V, error) {
 		var result setShardResult[K, V]
 		var entryCost int64
 		var entryExpire int64
+		// true only when the stored value was read from the secondary cache, so that
+		// a value produced by the loader is written back when it is evicted
+		var fromSecondary bool
 		loaded, err, _ := shard.group.Do(key, func() (Loaded[V], error) {
 			// load and store should be atomic
 			shard.mu.Lock()
@@ -1246,6 +1249,7 @@ func (s *LoadingStore[K, V]) Get(ctx context.Context, key K) (V, error) {
 					result = s.setShardWithoutLock(shard, h, key, vs, cost, expire, true)
 					entryCost = cost
 					entryExpire = expire
+					fromSecondary = true
 					return Loaded[V]{Value: vs}, nil
 				}
 			}
@@ -1272,7 +1276,7 @@ func (s *LoadingStore[K, V]) Get(ctx context.Context, key K) (V, error) {
 			return loaded, err
 		})
 		if result.entry != nil {
-			s.toPolicy(result, shard, h, entryCost, entryExpire, true)
+			s.toPolicy(result, shard, h, entryCost, entryExpire, fromSecondary)
 		}
 		return loaded.Value, err
 	} else {
